@@ -332,19 +332,19 @@ def tlookup (n : Name) : Table → Option Cat
   | [] => none
   | (k, c) :: r => if k = n then some c else tlookup n r
 
-/-- AddName over a list of names of one category; `none` = "multiple definition" -/
-def addNames (c : Cat) : List Name → Table → Option Table
-  | [], t => some t
-  | n :: r, t => if (tlookup n t).isSome then none else addNames c r ((n, c) :: t)
+/-- the AddName calls of RegisterNames, in order -/
+def File.symbols (f : File) : List (Name × Cat) :=
+  f.typedefs.map (fun x => (x.alias, Cat.typedef)) ++ (f.consts.map (fun x => (x.name, Cat.constant)) ++
+  (f.enums.map (fun x => (x.name, Cat.enum)) ++ (f.structs.map (fun x => (x.name, Cat.struct)) ++
+  (f.unions.map (fun x => (x.name, Cat.union)) ++ (f.exceptions.map (fun x => (x.name, Cat.exception)) ++
+  f.services.map (fun x => (x.name, Cat.service)))))))
 
-def registerNames (f : File) : Option Table := do
-  let t ← addNames .typedef (f.typedefs.map (·.alias)) []
-  let t ← addNames .constant (f.consts.map (·.name)) t
-  let t ← addNames .enum (f.enums.map (·.name)) t
-  let t ← addNames .struct (f.structs.map (·.name)) t
-  let t ← addNames .union (f.unions.map (·.name)) t
-  let t ← addNames .exception (f.exceptions.map (·.name)) t
-  addNames .service (f.services.map (·.name)) t
+/-- AddName one after the other; `none` = "multiple definition" -/
+def addAll : List (Name × Cat) → Table → Option Table
+  | [], t => some t
+  | (n, c) :: r, t => if (tlookup n t).isSome then none else addAll r ((n, c) :: t)
+
+def registerNames (f : File) : Option Table := addAll f.symbols []
 
 /-- what the resolver of one file sees of its includes -/
 structure IncV where
